@@ -223,7 +223,7 @@ static void c08_run(int shard, int nshards, const hz::Args& a, hz::Result& r) {
   //     library-defined specifiers, which raw 3-token strings cannot reach
   {
     static const char* kUnit[] = {"x", "s", "Y", "E", ":", "z", "S", " ", "\xc3\xa9", "%%", "%%%%",
-                                  "%Y", "%m", "%d", "%e", "%H", "%M", "%S", "%z", "%Z", "%s", "%Ez", "%E*z", "%:z", "%::z", "%:::z", "%E3S", "%E*S", "%E0f", "%E*f", "%E4Y", "%ET", "%U", "%W", "%u", "%w", "%E15S", "%E18f",
+                                  "%Y", "%m", "%d", "%e", "%H", "%M", "%S", "%z", "%Z", "%s", "%Ez", "%E*z", "%:z", "%::z", "%:::z", "%E3S", "%E*S", "%E0f", "%E*f", "%E4Y", "%ET", "%U", "%W", "%u", "%w", "%E15S", "%E18f", "%E19S", "%E33f", "%E34S", "%E1024f",
                                   "%a", "%b", "%j", "%c", "%x", "%y", "%p", "%I", "%Ey", "%Od", "%_H",
                                   "%", "%E", "%:", "%E*", "%E4", "%::"};
     const int nu = static_cast<int>(sizeof(kUnit) / sizeof(kUnit[0]));
@@ -243,7 +243,7 @@ static void c08_run(int shard, int nshards, const hz::Args& a, hz::Result& r) {
   }
   // documented specifiers each alone and in the RFC3339/RFC1123 combinations, on EVERY zone and probe
   if (shard == 0) {
-    const char* docs[] = {"%Y", "%m", "%d", "%e", "%H", "%M", "%S", "%z", "%Z", "%s", "%%", "%Ez", "%E*z", "%:z", "%::z", "%:::z", "%E0S", "%E3S", "%E15S", "%E16S", "%E*S", "%E3f", "%E*f", "%E4Y", "%ET", "%U", "%W", "%u", "%w",
+    const char* docs[] = {"%Y", "%m", "%d", "%e", "%H", "%M", "%S", "%z", "%Z", "%s", "%%", "%Ez", "%E*z", "%:z", "%::z", "%:::z", "%E0S", "%E3S", "%E15S", "%E16S", "%E18S", "%E19S", "%E20f", "%E33S", "%E34f", "%E100S", "%E1024f", "%E*S", "%E3f", "%E*f", "%E4Y", "%ET", "%U", "%W", "%u", "%w",
                           "%Y-%m-%d%ET%H:%M:%E*S%Ez", "%a, %d %b %E4Y %H:%M:%S %z", "%A %B %j %y %C %G %g %V %D %F %T %R %r %p %I %l %k %h %n %t %x %X %c", "100%% %%Y %%%Y %%%%Y", "%_H %-d %010Y %^a %#Z", "%Ey %EC %Ex %EX %Ec %Od %Om %OH"};
     const long long fsv[] = {0, 1, 999999999999999LL, 120000000000000LL};
     for (auto& z : g_zones) {
